@@ -1074,11 +1074,11 @@ def shrink(case):
 
 def streams(tier):
     th = tier == "thorough"
-    q = 20 if th else 1
+    q = 15 if th else 1
     return [
-        Stream("mean", gen_scalar("mean", 1000 * q), check_mean, shrink, timeout=600),
-        Stream("mixed_normal", gen_scalar("mn", 1000 * q), check_mn, shrink, timeout=600),
-        Stream("mixed_categorical", gen_rows("cat", 1000 * q), check_cat, shrink, timeout=600),
-        Stream("mode", gen_rows("mode", 1000 * q), check_mode, shrink, timeout=600),
+        Stream("mean", gen_scalar("mean", 2000 * q), check_mean, shrink, timeout=600),
+        Stream("mixed_normal", gen_scalar("mn", 2000 * q), check_mn, shrink, timeout=600),
+        Stream("mixed_categorical", gen_rows("cat", 2000 * q), check_cat, shrink, timeout=600),
+        Stream("mode", gen_rows("mode", 2000 * q), check_mode, shrink, timeout=600),
         Stream("malformed", gen_malformed(60 if th else 24), check_malformed, None, timeout=600),
     ]
